@@ -153,6 +153,10 @@ func ReadEnvFile(filename string) (map[string]string, error) {
 	envscanner := bufio.NewScanner(f)
 	for envscanner.Scan() {
 		kv := strings.Split(envscanner.Text(), "=")
+		if len(kv) < 2 {
+			// not a `k=v` line (blank line, bare word)
+			continue
+		}
 		envs[kv[0]] = kv[1]
 	}
 
